@@ -1,7 +1,7 @@
 From Coq Require Extraction.
 From Coq Require Import ExtrOcamlBasic.
 From OlaBase Require Import Bytes.
-From C13 Require Import Gen Model AckTimer Responders MovingLight Network Dummy Chk.
+From C13 Require Import Gen Model AckTimer Responders MovingLight Network Dummy AdvDimmer Chk.
 Extraction Language OCaml.
 Extraction "model.ml" io_witness N.div_eucl chk_13 chk_sweep predict test_dispatch test_fan help_run
-  known_testdata at_run at_init qcount sr_run dm_run dm_init cfg_sensors sensors_dyn ml_run ml_init nr_run dr_run dr_init.
+  known_testdata at_run at_init qcount sr_run dm_run dm_init cfg_sensors sensors_dyn ml_run ml_init nr_run dr_run dr_init ad_run ad_init.
